@@ -14,17 +14,49 @@ from ..core import Case
 
 ID = 'C16'
 MANIFEST = {
-    'text': 'TODO',
-    'note': 'TODO',
-    'technique': 'TODO',
+    'text': ('Coq theorems (all unbounded, closed under the global context) about an executable model of the whole delimited pipeline: '
+             'C16_csv_read_write (the csv.reader state machine inverts csv.writer QUOTE_MINIMAL on every record of fields without line breaks, any delimiter); '
+             'C16_import_export_text (writer, then from_delimited\'s csv.reader+TAB.join or raw-line bypass AS CODED -- the branch and the native delimiter are read '
+             'from frame.py on every run --, then genfromtxt\'s strip-and-split give every record back outside the refuted classes); '
+             'C16_decode_render_column (genfromtxt column inference bool/int64/float/str + StoreFilter give back every column whose cell texts are unambiguous for their type); '
+             'C16_int_text_roundtrip / C16_int_column_ok / C16_bool_column_ok (every int64 and Boolean column is unambiguous); '
+             'C16_delimited_roundtrip (refinement M = S: for every delimiter, index depth, columns depth, include_index/include_columns setting and both store filters the '
+             'modelled pipeline -- Frame._to_str_records layout, header rows, index columns, Index construction included -- returns the same labels, values and dtype kinds '
+             'for every Frame of the decidable domain dom); C16_store_filter_markers (the StoreFilter default constants regenerated from store_filter.py decode what they encode); '
+             'C16_pairs0/pairs1/records_roundtrip (to_pairs / rows and from_items / from_records_items / from_records are inverse), C16_pickle_roundtrip. '
+             'Correspondence through the public interface only: Frame.to_csv/to_tsv/to_delimited -> from_csv/from_tsv/from_delimited on exhaustive one-cell sweeps over the alphabet '
+             '{a,1,space,comma,quote,TAB,-,|} in five positions x three delimiters plus random Frames (bool/int/float/str/object columns, str/int labels, index depth 1-3, columns depth 1-2, '
+             'all block layouts, include_index/include_columns, both store filters), each evaluated inside Coq against M (exact prediction, bugs included), S (the same Frame) and dom '
+             '(the case is / is not in the theorem\'s domain as constructed); to_pairs(0/1), rows, dict records, items, pickle, deepcopy round trips.'),
+    'note': ('Trusted / modelled, not verified: the oracle models of csv.writer, csv.reader, np.genfromtxt (LineSplitter, dtype=None inference incl. the NumPy-2 TypeError path), '
+             'Python int()/float()/f\'{x}\' on the modelled alphabet -- each validated on every run by an exhaustive small sweep against the real thing (a mismatch is a MACHINERY-ERROR); '
+             'pickle (arrays come back writeable with the same content); Index/IndexHierarchy construction reduced to uniqueness + tree-form. '
+             'Partial: floats are covered by the per-cell guard cell_ok (text parses back to the value; evaluated for every generated float) rather than a general theorem; floats in '
+             'exponent notation are checked against S only; names (frame / index / columns) are compared only for pickle/deepcopy; zero-row Frames, encodings, quoting options other than '
+             'the defaults, skip_header/skip_footer, index_column_first, dtypes= are not covered. Nine known findings (known/C16.jsonl), six of them with a Refuted/C16.v witness.'),
+    'technique': 'refinement proof (Coq) of an executable model of the export/import pipeline + differential runs through the public interface evaluated inside Coq (vm_compute) + regenerated constants',
 }
 PROPERTY_FILES = ['Properties/C16.v']
 REFUTED_FILES = ['Refuted/C16.v']
 MODEL_FILES = ['SF/Codec.v', 'SF/CodecStruct.v']
 IMPORTS = 'Require Import SF.Prelude SF.Value SF.Dtype SF.Codec SF.CodecStruct.'
-RULE = 'TODO'
-ASSUMPTIONS = []
-TRUSTED = []
+RULE = ('delimited: (a) exhaustive -- every string of length <= 2 (quick) / <= 3 (thorough) over {a,1,space,comma,quote,TAB,-,|} as one cell (first / middle / last column), '
+        'one index label or one column label of a fixed 2x3 Frame, x delimiters comma, TAB, |; (b) random Frames: 1-4 rows, 1-4 columns of kinds bool/int64/float64/str/object(None,NaN), '
+        'index depth 1-3 and columns depth 1-2 of str / int levels, every block layout, delimiter in {comma,TAB,|,;,space}, include_index / include_columns on or off, default or disabled '
+        'StoreFilter; every str column holds a cell with a letter, every float column a non-NaN cell, every object column a missing marker (so the source is unambiguous by construction); '
+        '(c) the minimal replay of every known finding. A delimited case is non-trivial always (a Frame goes through the file); distinct = distinct (frame, configuration, layout). '
+        'structural: random Frames as above through to_pairs(0)->from_items, to_pairs(1)->from_records_items, iter_tuple->from_records, dict records, items, pickle, deepcopy. '
+        'oracle strata: exhaustive sweeps of the Gallina oracle models against csv.writer / csv.reader / LineSplitter / genfromtxt(dtype=None) / str formatting.')
+ASSUMPTIONS = [
+    'csv.writer(QUOTE_MINIMAL, doublequote, lineterminator "\\n") = csv_write_row; csv.reader (default dialect) on one physical line = csv_read_line (validated exhaustively: all records of <= 3 fields, all lines of length <= 4 over the alphabet)',
+    'np.genfromtxt(delimiter=TAB, dtype=None, comments=None, names=None): LineSplitter = gen_split (strip " \\r\\n", skip empty, split); column inference = infer_col (bool, int64, float, str; blank = missing; NumPy-2 TypeError when the first non-blank cell of a text column reads as an int); rows with a deviating field count, all-missing columns and bool columns with a blank are outside the model',
+    'Python int()/float() on the alphabet {a,b,0-9,space,comma,|,quote,-,+,.} = parse_num / parse_int / parse_float; f"{x}" of int64 = decimal, of a double n/2^k (k <= 20, 1e-4 <= |x| < 1e16) = its exact positional expansion',
+    'a float cell is in the domain when its rendered text parses back to it (cell_ok, evaluated per cell); floats are observed as float.as_integer_ratio()',
+    'Index / IndexHierarchy.from_labels accept labels iff unique under Python equality and (depth > 1) in tree form',
+    'pickle.loads(pickle.dumps(a)) of an ndarray has the same content and is writeable',
+]
+TRUSTED = ['oracle models in coq/SF/Codec.v of csv / np.genfromtxt / int() / float() / str formatting (swept against the real modules on every run)',
+           'tools/sfv/props/c16.py:generate -- ast extraction of the StoreFilter defaults, STORE_FILTER_DISABLE, delimiter_native, the csv.reader bypass branch and the keyword defaults of to_delimited / from_delimited (fail closed)']
 EXHAUSTIVE = {'quick': False, 'thorough': False}
 TRANSLATED = []
 
@@ -558,6 +590,32 @@ def _rcol(rng, nr, alphabet, allow_obj=True, allow_empty=True):
     return ('O', vs)
 
 
+def records_kernel_case(ctx, spec, cfg, layout):
+    """Kernel level: the records Frame._to_str_records yields (private generator) against M_records."""
+    from static_frame.core.store_filter import STORE_FILTER_DEFAULT, STORE_FILTER_DISABLE
+    frame = build(spec, layout)
+    src = observe(frame)
+    flt = STORE_FILTER_DEFAULT if cfg['filter'] else STORE_FILTER_DISABLE
+    try:
+        recs = [list(r) for r in frame._to_str_records(include_index=cfg['inc_index'], include_columns=cfg['inc_columns'], store_filter=flt)]
+        obs = lit.lst([lit.lst([_tx(x) for x in r]) for r in recs])
+    except Exception as e:  # noqa
+        recs, obs = {'raised': lit.err_class(e)}, '[[tx "<raised>"]]'
+    ctx.count('kernel:_to_str_records')
+    if any(isinstance(v, float) and v == v and abs(v) != float('inf') and not _renderable(v) for _, vs in spec['cols'] for v in vs):
+        term = None
+    else:
+        term = f'list_eqb (list_eqb text_eqb) (M_records {_cfg(cfg)} {_tframe(src)}) {obs}'
+    return Case('kernel:_to_str_records', {'call': 'list(f._to_str_records(include_index=, include_columns=, store_filter=))', 'frame': _jsonable(src),
+                                           'include_index': cfg['inc_index'], 'include_columns': cfg['inc_columns'], 'records': recs},
+                m=term, tags={'op': 'kernel'})
+
+
+def _renderable(v):
+    n, d = float(v).as_integer_ratio()
+    return d <= 2 ** 20 and abs(n) < 2 ** 53 and abs(n) // d < 10 ** 15 and (n == 0 or d <= abs(n) * 10000)
+
+
 def random_cases(ctx):
     rng = ctx.rng
     n = ctx.n(700, 12000)
@@ -589,6 +647,33 @@ def random_cases(ctx):
             layouts = list(zoo.layouts_for([a.dtype for a in arrays]))
             layout = rng.choice(layouts)
         yield delimited_case(ctx, 'api:delimited-random', spec, cfg, layout)
+        if rng.random() < 0.4:
+            yield records_kernel_case(ctx, spec, cfg, layout)
+
+
+def scientific_float_cases(ctx):
+    """Floats whose repr uses the exponent notation or 17 digits (outside the model of f'{x}': specification only)."""
+    rng = ctx.rng
+    pool = [1e20, -1e20, 1.5e-7, 2.0 ** 70, -2.0 ** -30, 1e16, 1.2345678901234567, 0.1, -0.3, 1 / 3, 123456789.123456789, 5e-324, 1.7976931348623157e308,
+            float('inf'), float('nan')]
+    for _ in range(ctx.n(60, 600)):
+        nr, nc = rng.choice([1, 2, 3]), rng.choice([1, 2, 3])
+        cols = []
+        for _j in range(nc):
+            vs = [rng.choice(pool) for _ in range(nr)]
+            if all(v != v for v in vs):
+                vs[0] = 0.1
+            cols.append(('f', vs))
+        index = _rlabels(rng, nr, ['s'], ['a', 'b', '1'])
+        columns = _rlabels(rng, nc, ['s'], ['a', 'b', '1'])
+        spec = {'index': index, 'columns': columns, 'cols': cols, 'di': 1, 'dc': 1}
+        cfg = {'delim': rng.choice([',', '\t', '|']), 'inc_index': True, 'inc_columns': True, 'filter': rng.random() < 0.8, 'di': 1, 'dc': 1, 'apex': ['__index0__']}
+        frame = build(spec)
+        src = observe(frame)
+        obs, obs_json, _ = _obs_lit(lambda: _io_roundtrip(frame, cfg)[1])
+        ctx.count('sci-float')
+        yield Case('api:delimited-scientific-float', {'call': 'from_delimited(io(to_delimited(f)))', 'delimiter': cfg['delim'], 'frame': _jsonable(src), 'observed': obs_json},
+                   s=f'obs_eqb (Ok {_tframe(src)}) {obs}', tags={'op': 'delimited', 'delim': 'any'})
 
 
 def witness_cases(ctx):
@@ -757,8 +842,135 @@ def structural_cases(ctx):
                        tags=dict(tags, finding=F_PICKLE) if how == 'pickle' else tags)
 
 
+
+# ----------------------------------------------------------------------------- oracle sweeps (machinery, not property)
+def _otext(fields):
+    return lit.lst([_tx(x) for x in fields])
+
+
+def oracle_cases(ctx):
+    """Exhaustive small sweeps of the Gallina oracle models against csv / NumPy / Python themselves.
+    A mismatch is a failure of the machinery (MachineryError), never a violation of the property."""
+    import csv
+    from numpy.lib._iotools import LineSplitter
+    from .. import core
+    if ctx.scale != 1.0:
+        return
+    quick = ctx.tier == 'quick'
+    out = []
+
+    def add(kind, desc, term):
+        out.append(Case(kind, desc, m=term, tags={'op': 'oracle'}))
+
+    A = ['a', '1', ' ', ',', '"', '\t', '-', '|']
+    strings = lambda n, alpha: [''.join(t) for k in range(n + 1) for t in itertools.product(alpha, repeat=k)]
+    # csv.writer: every record of <= 2 (3) fields of length <= 2
+    fields = strings(1 if quick else 2, A)
+    for d in (',', '\t', '|'):
+        for nf in (1, 2) if quick else (1, 2, 3):
+            pool = fields if nf < 3 else strings(1, A)
+            for row in itertools.product(pool, repeat=nf):
+                buf = io.StringIO()
+                csv.writer(buf, delimiter=d, lineterminator='\n').writerow(row)
+                line = buf.getvalue()[:-1]
+                add('oracle:csv.writer', {'delimiter': d, 'row': list(row), 'line': line},
+                    f'text_eqb (csv_write_row {_ch(d)} {_otext(row)}) {_tx(line)}')
+        # csv.reader: every line of length <= 3 (4)
+        for line in strings(3 if quick else 4, A):
+            got = list(csv.reader(io.StringIO(line + '\n'), delimiter=d))
+            got = got[0] if got else []
+            if len(list(csv.reader(io.StringIO(line + '\nz\n'), delimiter=d))) != 2 or any('\n' in x for x in got):
+                want = 'None'       # a quote left open: the real reader goes on with the next line
+            else:
+                want = f'(Some {_otext(got)})'
+            add('oracle:csv.reader', {'delimiter': d, 'line': line, 'fields': got},
+                f'option_eqb (list_eqb text_eqb) (csv_read_line {_ch(d)} {_tx(line)}) {want}')
+    # genfromtxt's LineSplitter
+    split = LineSplitter('\t', comments=None, autostrip=False)
+    for line in strings(4 if quick else 5, ['a', ' ', '\t', ',']):
+        got = split(line + '\n')
+        add('oracle:genfromtxt.split', {'line': line, 'fields': got}, f'list_eqb text_eqb (gen_split {_tx(line)}) {_otext(got)}')
+    # genfromtxt(dtype=None) on a column of one or two cells (in the middle of the line, so no edge stripping)
+    B = ['a', '1', '0', ' ', ',', '"', '-', '.', '|', '+']
+    cells1 = strings(3 if quick else 4, B)
+    tokens = ['True', 'False', 'true', 'TRUE', 'None', 'inf', '-inf', 'nan', '', ' ', '1', '-1', ' 1 ', '1.5', '-0.25', '.5', '5.', '1a', 'a', '-',
+              '9223372036854775807', '9223372036854775808', '-9223372036854775808', '007', '0.125', '1 1', '--1', '+1', '1.0', '10.75']
+    columns = [[c] for c in cells1] + [[c] for c in tokens] + [[a, b] for a in tokens for b in tokens]
+
+    def pv(v):
+        return _py(v)
+    with warnings.catch_warnings():
+        warnings.simplefilter('ignore')
+        for col in columns:
+            try:
+                arr = np.genfromtxt(['x\t%s\ty' % c for c in col], delimiter='\t', comments=None, names=None, dtype=None, encoding=None, invalid_raise=False)
+                if arr.dtype.names is None:
+                    # uniform type: all three columns have the type of the middle one
+                    vals = [pv(v) for v in np.atleast_2d(arr)[:, 1].tolist()]
+                    kind = arr.dtype.kind
+                else:
+                    name = arr.dtype.names[1]
+                    vals = [pv(v) for v in np.atleast_1d(arr[name]).tolist()]
+                    kind = arr.dtype[1].kind
+                exp = ('ok', kind, vals)
+            except TypeError:
+                exp = ('TypeError',)
+            except Exception as e:  # noqa
+                raise core.MachineryError(f'oracle sweep: genfromtxt raised {type(e).__name__} on {col!r}')
+            cells = _otext(col)
+            if all(c.strip(' ') == '' for c in col):
+                term = f'res_eqb tcol_eqb (infer_col {cells}) (Err "OutOfModel:all-missing column")'
+            elif exp[0] == 'TypeError':
+                term = f'res_eqb tcol_eqb (infer_col {cells}) (Err "TypeError")'
+            else:
+                _, kind, vals = exp
+                inexact = kind == 'f' and any(not _decimal_exact(c) for c in col if c.strip(' ') != '')
+                big = any(_INT_RE.match(c) and not (-2 ** 63 <= int(c) <= 2 ** 63 - 1) for c in col)
+                okterm = f'tcol_eqb r ({_KINDS[kind]}, {lit.lst([_val(v) for v in vals])})'
+                if all(c.strip(' ') == '' or c.upper() in ('TRUE', 'FALSE') for c in col) and any(c.strip(' ') == '' for c in col):
+                    term = f'res_eqb tcol_eqb (infer_col {cells}) (Err "OutOfModel:bool column with a missing cell")'
+                elif inexact or big:
+                    term = (f'match infer_col {cells} with Err e => String.eqb e "OutOfModel:inexact float" || String.eqb e "OutOfModel:int64" '
+                            f'| Ok r => {okterm} end')
+                else:
+                    term = f'match infer_col {cells} with Err _ => false | Ok r => {okterm} end'
+            add('oracle:genfromtxt.infer', {'column': col, 'numpy': [str(x) for x in exp]}, term)
+    # f'{x}' of the scalars the generators use
+    ints = [0, 1, -1, 9, 10, -10, 99, 100, 2 ** 31, -2 ** 31 - 1, 2 ** 53, 2 ** 63 - 1, -2 ** 63, 10 ** 15 + 1, 123456789012345678]
+    floats = [k / 8 for k in range(-40, 41)] + [k / 4 for k in (-999, 999, 1001)] + [k / 1024 for k in (1, 3, -5, 1023, 1025, 10 ** 6 + 1)] + \
+             [10 ** 6 / 8, -(10 ** 6) / 8, 123456.125, 2.0 ** 40, 0.0001220703125, 999999999999999.0]
+    for v in ints:
+        add('oracle:format', {'value': v, 'text': f'{np.int64(v)}'}, f'text_eqb (render_val filter_default (VInt {lit.z(v)})) {_tx(f"{np.int64(v)}")}')
+    for v in floats:
+        n, dd = float(v).as_integer_ratio()
+        add('oracle:format', {'value': v, 'text': f'{np.float64(v)}'},
+            f'float_renderable {lit.z(n)} {lit.z(dd)} && text_eqb (render_val filter_default (VFlt {lit.z(n)} {lit.z(dd)})) {_tx(f"{np.float64(v)}")}')
+    for i, c in enumerate(out):
+        c.cid = i
+    fail_m, _ = core.eval_cases(ID + '_oracle', IMPORTS, out)
+    if fail_m:
+        bad = [c for c in out if c.cid in fail_m][:5]
+        raise core.MachineryError('oracle model disagrees with csv / NumPy / Python (machinery failure, not a property violation): ' +
+                                  '; '.join(f'{c.kind} {c.desc}' for c in bad))
+    for c in out:
+        ctx.count(c.kind)
+        yield Case(c.kind, dict(c.desc, validated_in_coq=True), tags=c.tags, nontrivial=True)
+
+
+def _decimal_exact(text):
+    """The decimal text is exactly a double (so the model may print its ratio)."""
+    from fractions import Fraction
+    t = text.strip(' ')
+    try:
+        return Fraction(t) == Fraction(float(t))
+    except (ValueError, ZeroDivisionError):
+        return True
+
+
 def cases(ctx):
     yield from witness_cases(ctx)
     yield from fixed_frame_cases(ctx)
     yield from random_cases(ctx)
+    yield from scientific_float_cases(ctx)
     yield from structural_cases(ctx)
+    yield from oracle_cases(ctx)
